@@ -101,6 +101,7 @@ func plans(id, tier string) (Plan, bool) {
 	case "C06":
 		return Plan{Level: "exploration", Jobs: []Job{
 			{Pkg: pkgV2, Harness: "c06_tokens", Shards: pick(4, 16)},
+			{Pkg: pkgV2, Harness: "c06_history", Shards: 2},
 			{Pkg: pkgV2, Harness: "c06_match", Params: map[bool]string{false: "docs=431;positions=1", true: "docs=431;positions=12"}[th], Shards: 16},
 			{Pkg: pkgV2, Harness: "c06_match", Params: map[bool]string{false: "docs=4;maxbytes=1200;positions=0;kinds=notice,marker,split,splitnotice", true: "docs=60;maxbytes=6000;positions=0"}[th], Shards: 16},
 		}}, true
@@ -114,6 +115,7 @@ func plans(id, tier string) (Plan, bool) {
 				{Pkg: pkgV2, Harness: "c07_corpus", Params: "t=0.8;families=edit2", Shards: 16},
 				{Pkg: pkgV2, Harness: "c07_corpus", Params: "t=0.8;families=partnoise", Shards: 16},
 				{Pkg: pkgV2, Harness: "c07_corpus", Params: "t=0.8;families=partnoise,exact,truncate;contexts=huge;ndocs=120", Shards: 16},
+				{Pkg: pkgV2, Harness: "c07_corpus", Params: "t=0.8;families=exact,partnoise;contexts=pow2;ndocs=40", Shards: 16},
 			}}, true
 		}
 		return Plan{Level: "exploration", Jobs: []Job{
@@ -122,6 +124,7 @@ func plans(id, tier string) (Plan, bool) {
 			{Pkg: pkgV2, Harness: "c07_corpus", Params: "t=0.8;families=exact,edit1,periodic,truncate,concat,scenario" + map[bool]string{false: ",scatter,edit2", true: ""}[th], Shards: 16},
 			{Pkg: pkgV2, Harness: "c07_corpus", Params: "t=0.8;docs=c07findings;families=scatter,periodic", Shards: 7},
 			{Pkg: pkgV2, Harness: "c07_corpus", Params: "t=0.8;families=partnoise,exact,truncate;contexts=huge;ndocs=" + fmt.Sprint(pick(24, 120)), Shards: 16},
+			{Pkg: pkgV2, Harness: "c07_corpus", Params: "t=0.8;families=exact,partnoise;contexts=pow2;ndocs=" + fmt.Sprint(pick(6, 40)), Shards: 16},
 		}}, true
 	case "C08":
 		return Plan{Level: "fault_enumeration", Jobs: []Job{
